@@ -3,11 +3,13 @@ package props
 import (
 	"bytes"
 	"fmt"
+	"io"
 	"os"
 	"path/filepath"
 	"runtime"
 	"sync"
 	"testing"
+	"testing/iotest"
 
 	"github.com/ipfs/go-cid"
 	"github.com/ipfs/go-unixfsnode/data/builder"
@@ -163,6 +165,46 @@ func TestC11(t *testing.T) {
 			c.Max("max_depth", int64(depth))
 			c.Sig(fmt.Sprintf("file|w%d|d%d|spine%v|shared=%v", fc.Width, depth, spine, shared), links >= 1)
 		})
+	}
+	// a source that ends with io.ErrUnexpectedEOF instead of io.EOF (a compressed stream without its
+	// trailer, a body cut short): the size chunkers take that for the end of the input, and when it
+	// comes exactly on a chunk boundary they hand out one last chunk of no bytes. Whatever the builder
+	// stores for it is a child like any other: one block size per link
+	for _, k := range []int{1, 4, 16} {
+		for _, chunks := range []int{0, 1, 2, 3, 7, 9, 10} {
+			for _, extra := range []int{0, 1} {
+				k, chunks, extra := k, chunks, extra
+				if extra >= k {
+					continue
+				}
+				r.Case(fmt.Sprintf("file-unexpected-eof/k%d/chunks%d/extra%d", k, chunks, extra), map[string]any{"chunker": fmt.Sprintf("size-%d", k), "len": k*chunks + extra, "source_ends_with": "io.ErrUnexpectedEOF"}, func(c *mon.Case) {
+					content := gen.Content(c.Rand(), "rand", k*chunks+extra)
+					for _, w := range []int{2, 3, 174} {
+						st := store.New()
+						var l ipld.Link
+						var sz uint64
+						var err error
+						withWidth(w, func() {
+							l, sz, err = builder.BuildUnixFSFile(io.MultiReader(bytes.NewReader(content), iotest.ErrReader(io.ErrUnexpectedEOF)), fmt.Sprintf("size-%d", k), st.LinkSystem(false))
+						})
+						if err != nil {
+							c.Count("builds_refused", 1) // refusing such a source is the builder's right
+							continue
+						}
+						c.Count("builds_from_sources_ending_in_unexpected_eof", 1)
+						links, _ := checkSizes(c, st, linkCid(l), sz, fmt.Sprintf("file w%d size-%d %d bytes from a source ending in io.ErrUnexpectedEOF", w, k, len(content)))
+						if spans, _, err := walkerFor(st).FileSpans(linkCid(l)); err == nil {
+							for _, sp := range spans {
+								if sp.Leaf && sp.Start == sp.End && len(content) > 0 {
+									c.Count("empty_leaves_stored", 1)
+								}
+							}
+						}
+						c.Sig(fmt.Sprintf("file-unexpected-eof|w%d|aligned=%v", w, extra == 0), links >= 1)
+					}
+				})
+			}
+		}
 	}
 	if !r.Quick() {
 		// a file of 2^32+1 bytes (streamed zeros): byte counts must not wrap at 32 bits
@@ -532,6 +574,13 @@ func TestC11(t *testing.T) {
 			must(os.WriteFile(filepath.Join(dir, "t", "sub", "zeros.bin"), gen.Content(rr, "zero", 262144*3), 0o644))
 			must(os.WriteFile(filepath.Join(dir, "t", "sub", "deeper", "exact.bin"), gen.Content(rr, "rand", 262144), 0o644))
 			must(os.Symlink("../small.txt", filepath.Join(dir, "t", "sub", "lnk")))
+			// further names for the same inodes (hard links), in the same and in another directory:
+			// each name is an entry like any other, with the cumulative size of what it links to
+			if os.Link(filepath.Join(dir, "t", "sub", "big.bin"), filepath.Join(dir, "t", "sub", "big-again.bin")) == nil &&
+				os.Link(filepath.Join(dir, "t", "sub", "big.bin"), filepath.Join(dir, "t", "big-elsewhere.bin")) == nil &&
+				os.Link(filepath.Join(dir, "t", "small.txt"), filepath.Join(dir, "t", "sub", "deeper", "small-again.txt")) == nil {
+				c.Count("hard_linked_names", 3)
+			}
 			for k := 0; k < rr.Intn(20); k++ {
 				must(os.WriteFile(filepath.Join(dir, "t", "sub", "deeper", fmt.Sprintf("f%d", k)), gen.Content(rr, "rand", rr.Intn(3000)), 0o644))
 			}
